@@ -35,6 +35,9 @@ CLAIMED = {
  "C04": ("exploration", "bounded-exhaustive program enumeration over a two-name alphabet with lookup probes everywhere + proptest deeper programs against a reference interpreter; caller data deep-compared",
          "Every program of <=2 statements (thorough <=3) from 62 statement forms x 9 caller bindings, with a non-failing probe of every name (distinguishing object-with-member from scalar bindings) before/after every statement and inside bodies and the included partial; random programs to depth 4 with loop variables named like data. Oracle: reference interpreter with explicit layer order; the caller's Object is compared after each render.",
          "Reference interpreter trusted. Non-triviality (same name bound in >=2 layers) is measured by the interpreter per layer pair and reported in evidence.", "4.4"),
+ "C08": ("exploration", "enumerated call-form x partial-behaviour family + proptest caller/partial scenarios (valid, broken, missing, dead paths, dynamic names) against a reference interpreter",
+         "Every include/render argument form x 8 partial behaviours x inside/outside a caller loop x caller bindings, dynamic partial names changing per execution of one tag site, missing/broken partials on executed and dead paths; random scenarios with a caller and three partials (acyclic), probes of every name around every call. Oracle: reference interpreter modelling include (shared scope, argument frame, interrupts propagate) and render (arguments only, own assignments may rebind them, counters shared but not readable, interrupts contained).",
+         "Reference interpreter trusted; cycle/ifchanged in partials and interrupts at the top level of a render-for partial are not compared.", "4.8"),
 }
 
 NOT_YET = {
